@@ -1,9 +1,11 @@
-package main
+// Package hlib is the shared library of the per-property correspondence binaries (harness/cmd/cXX).
+package hlib
 
 import (
 	"bufio"
 	"encoding/hex"
 	"encoding/json"
+	"flag"
 	"fmt"
 	"io/ioutil"
 	"os"
@@ -51,8 +53,8 @@ type Ctx struct {
 	Replay     string
 	Search     bool
 	Corpus     string
-	rng        *Rng
-	res        Result
+	Rng        *Rng
+	Res        Result
 	distinct   map[string]bool
 	start      time.Time
 	maxFind    int
@@ -60,8 +62,8 @@ type Ctx struct {
 
 func newCtx(id, tier string, seed uint64, driver, out, replay string, search bool, corpus string) *Ctx {
 	c := &Ctx{ID: id, Tier: tier, Seed: seed, DriverPath: driver, Out: out, Replay: replay, Search: search, Corpus: corpus}
-	c.rng = NewRng(seed)
-	c.res = Result{Property: id, Tier: tier, Seed: seed, Distribution: map[string]int{}, FindingCount: map[string]int{}}
+	c.Rng = NewRng(seed)
+	c.Res = Result{Property: id, Tier: tier, Seed: seed, Distribution: map[string]int{}, FindingCount: map[string]int{}, Samples: []string{}, Findings: []Finding{}, Notes: []string{}}
 	c.distinct = map[string]bool{}
 	c.start = time.Now()
 	c.maxFind = 40
@@ -82,49 +84,49 @@ func (c *Ctx) Budget(quick, thorough int) int {
 	return n
 }
 
-func (c *Ctx) Count(key string) { c.res.Distribution[key]++ }
-func (c *Ctx) CountN(key string, n int) { c.res.Distribution[key] += n }
+func (c *Ctx) Count(key string)         { c.Res.Distribution[key]++ }
+func (c *Ctx) CountN(key string, n int) { c.Res.Distribution[key] += n }
 
 // Eval records one evaluated case; key identifies it for distinctness; nontrivial by the caller's rule
 func (c *Ctx) Eval(key string, nontrivial bool) {
-	c.res.Evaluations++
+	c.Res.Evaluations++
 	if nontrivial && !c.distinct[key] {
 		c.distinct[key] = true
-		c.res.Distinct++
+		c.Res.Distinct++
 	}
 }
 
 func (c *Ctx) Sample(s string) {
-	if len(c.res.Samples) < 12 {
-		c.res.Samples = append(c.res.Samples, s)
+	if len(c.Res.Samples) < 12 {
+		c.Res.Samples = append(c.Res.Samples, s)
 	}
 }
 
-func (c *Ctx) Note(s string) { c.res.Notes = append(c.res.Notes, s) }
+func (c *Ctx) Note(s string) { c.Res.Notes = append(c.Res.Notes, s) }
 
 func (c *Ctx) Find(f Finding) {
 	k := f.Kind + ":" + f.Class
-	c.res.FindingCount[k]++
+	c.Res.FindingCount[k]++
 	// keep the first few of every class (shortest case preferred)
 	n := 0
-	for i, g := range c.res.Findings {
+	for i, g := range c.Res.Findings {
 		if g.Kind == f.Kind && g.Class == f.Class {
 			n++
 			if len(f.Case) < len(g.Case) && n >= 3 {
-				c.res.Findings[i] = f
+				c.Res.Findings[i] = f
 				return
 			}
 		}
 	}
 	if n < 3 {
-		c.res.Findings = append(c.res.Findings, f)
+		c.Res.Findings = append(c.Res.Findings, f)
 	}
 }
 
-func (c *Ctx) finish() {
-	c.res.WallS = time.Since(c.start).Seconds()
-	sort.Slice(c.res.Findings, func(i, j int) bool { return c.res.Findings[i].Class < c.res.Findings[j].Class })
-	b, _ := json.MarshalIndent(&c.res, "", " ")
+func (c *Ctx) Finish() {
+	c.Res.WallS = time.Since(c.start).Seconds()
+	sort.Slice(c.Res.Findings, func(i, j int) bool { return c.Res.Findings[i].Class < c.Res.Findings[j].Class })
+	b, _ := json.MarshalIndent(&c.Res, "", " ")
 	if c.Out != "" {
 		if err := ioutil.WriteFile(c.Out, b, 0644); err != nil {
 			fmt.Fprintln(os.Stderr, "write result:", err)
@@ -170,15 +172,15 @@ func (c *Ctx) Drive(lines []string) []string {
 	cmd := exec.Command(c.DriverPath)
 	stdin, err := cmd.StdinPipe()
 	if err != nil {
-		fatal("driver stdin: %v", err)
+		Fatal("driver stdin: %v", err)
 	}
 	stdout, err := cmd.StdoutPipe()
 	if err != nil {
-		fatal("driver stdout: %v", err)
+		Fatal("driver stdout: %v", err)
 	}
 	cmd.Stderr = os.Stderr
 	if err := cmd.Start(); err != nil {
-		fatal("driver start: %v", err)
+		Fatal("driver start: %v", err)
 	}
 	go func() {
 		w := bufio.NewWriterSize(stdin, 1<<20)
@@ -202,13 +204,13 @@ func (c *Ctx) Drive(lines []string) []string {
 	}
 	cmd.Wait()
 	if len(outs) != len(lines) {
-		fatal("driver returned %d lines for %d inputs (driver crashed?)", len(outs), len(lines))
+		Fatal("driver returned %d lines for %d inputs (driver crashed?)", len(outs), len(lines))
 	}
 	return outs
 }
 
 // kv parses "a=1 b=2" into a map
-func kv(s string) map[string]string {
+func KV(s string) map[string]string {
 	m := map[string]string{}
 	for _, f := range strings.Fields(s) {
 		i := strings.IndexByte(f, '=')
@@ -221,32 +223,32 @@ func kv(s string) map[string]string {
 	return m
 }
 
-func hx(b []byte) string {
+func Hx(b []byte) string {
 	if len(b) == 0 {
 		return "-"
 	}
 	return hex.EncodeToString(b)
 }
 
-func unhx(s string) []byte {
+func Unhx(s string) []byte {
 	if s == "-" {
 		return nil
 	}
 	b, err := hex.DecodeString(s)
 	if err != nil {
-		fatal("bad hex %q", s)
+		Fatal("bad hex %q", s)
 	}
 	return b
 }
 
-func b01(b bool) string {
+func B01(b bool) string {
 	if b {
 		return "1"
 	}
 	return "0"
 }
 
-func fatal(f string, a ...interface{}) {
+func Fatal(f string, a ...interface{}) {
 	fmt.Fprintf(os.Stderr, "harness: "+f+"\n", a...)
 	os.Exit(3)
 }
@@ -278,4 +280,19 @@ func (r *Rng) Bytes(n int) []byte {
 		b[i] = byte(r.U64())
 	}
 	return b
+}
+
+// Main parses the common flags, runs the property's runner and writes the result.
+func Main(id string, run func(*Ctx)) {
+	tier := flag.String("tier", "quick", "quick|thorough")
+	seed := flag.Uint64("seed", 1, "PRNG seed")
+	driver := flag.String("driver", "/verif/lean/.lake/build/bin/driver_"+strings.ToLower(id), "Lean driver executable")
+	out := flag.String("out", "", "result JSON file")
+	replay := flag.String("replay", "", "replay a case file instead of generating")
+	search := flag.Bool("search", false, "enlarged budget: search for a failing input after a broken proof/correspondence")
+	corpus := flag.String("corpus", "/verif/corpus", "corpus directory")
+	flag.Parse()
+	ctx := newCtx(id, *tier, *seed, *driver, *out, *replay, *search, *corpus)
+	run(ctx)
+	ctx.Finish()
 }
